@@ -110,3 +110,53 @@ Lemma two_readers_stuck : forall cf,
 Proof.
   intros cf. destruct cf; eexists; vm_compute; repeat split; reflexivity.
 Qed.
+
+(* ------------------------------------------------------------------ the send lock and a call that has nothing to flush *)
+
+Section SendLockFacts.
+Variable fl : flags.
+Notation step := (step fl).
+Notation go := (go fl).
+
+Lemma step_call_matching : forall m b s x,
+  a_meth x = m -> a_arg x = expected_arg m b s ->
+  negb (meth_eqb (a_meth x) m && Nat.eqb (a_arg x) (expected_arg m b s)) = false.
+Proof. intros m b s x -> ->. rewrite meth_eqb_refl, Nat.eqb_refl. reflexivity. Qed.
+
+(* with the fix: WANT_READ and nothing to flush -> the task goes straight for the recv lock, whoever holds the send lock;
+   a successful call with nothing to flush returns at once (no checkpoint at which a cancellation could drop the result) *)
+Lemma no_send_lock_when_nothing_to_flush : forall m b s x,
+  f_skiplock fl = true -> a_meth x = m -> a_arg x = expected_arg m b s -> wbio s ++ a_wdelta x = [] ->
+  (a_out x = SWantRead -> step m b s PCall (LSsl x) = Some (set_wbio s [], PRecvWait (feeds s), [])) /\
+  (forall v, a_out x = SOk v -> m <> MWrite -> step m b s PCall (LSsl x) = Some (set_wbio s [], PEnd (ROk v), [])).
+Proof.
+  intros m b s x Hf Hm Ha Hw. split.
+  - intros Ho. unfold TlsPump.step. rewrite (step_call_matching m b s x Hm Ha), Ho. cbv zeta.
+    unfold flush_pc, wbio_empty. cbn [wbio set_wbio feeds]. rewrite Hw, Hf. reflexivity.
+  - intros v Ho Hnw. unfold TlsPump.step. rewrite (step_call_matching m b s x Hm Ha), Ho. cbv zeta.
+    unfold flush_pc, wbio_empty. cbn [wbio set_wbio]. rewrite Hw, Hf. destruct m; try reflexivity. congruence.
+Qed.
+
+(* without it: the task queues on the send lock although it has nothing to send — a reader cannot reach recv_into while
+   another task's send_all is in flight, and a successful call can still be cancelled (its result is lost) *)
+Lemma send_lock_taken_for_nothing : forall m b s x,
+  f_skiplock fl = false -> a_meth x = m -> a_arg x = expected_arg m b s -> wbio s ++ a_wdelta x = [] ->
+  (a_out x = SWantRead ->
+     step m b s PCall (LSsl x) = Some (set_wbio s [], PFlush (KRead (feeds s)), []) /\
+     (send_lock s = true -> go m (set_wbio s []) (PFlush (KRead (feeds s))) = None)) /\
+  (forall v bt, a_out x = SOk v -> m <> MWrite ->
+     step m b s PCall (LSsl x) = Some (set_wbio s [], PFlush (KRet v), []) /\
+     step m b (set_wbio s []) (PFlush (KRet v)) (LT (TCancel bt)) = Some (set_wbio s [], PEnd (RCancel bt), [])).
+Proof.
+  intros m b s x Hf Hm Ha Hw. split.
+  - intros Ho. split.
+    + unfold TlsPump.step. rewrite (step_call_matching m b s x Hm Ha), Ho. cbv zeta.
+      unfold flush_pc, wbio_empty. cbn [wbio set_wbio feeds]. rewrite Hw, Hf. reflexivity.
+    + intros L. unfold TlsPump.go. cbn [send_lock set_wbio]. rewrite L. reflexivity.
+  - intros v bt Ho Hnw. split.
+    + unfold TlsPump.step. rewrite (step_call_matching m b s x Hm Ha), Ho. cbv zeta.
+      unfold flush_pc, wbio_empty. cbn [wbio set_wbio]. rewrite Hw, Hf. destruct m; try reflexivity. congruence.
+    + reflexivity.
+Qed.
+
+End SendLockFacts.
